@@ -192,7 +192,7 @@ Section WithCalendar.
     - injection Hf as <-. Z.div_mod_to_equations; lia.
     - injection Hf as <-. Z.div_mod_to_equations; lia.
     - injection Hf as <-. Z.div_mod_to_equations; lia.
-    - destruct (in_i64 _); [|discriminate]. injection Hf as <-. lia.
+    - destruct (as_cr_total _ _ _ H2) as [_ Hxn]. destruct (in_i64 _); injection Hf as <-; [lia|contradiction].
   Qed.
 
   Lemma dt_trunc_months_fields u x m y :
